@@ -203,6 +203,8 @@ def rule_r1_stack(ctx: Ctx) -> None:
     def chk_c(trace, rv):
         if rv is UNKNOWN and any(e.kind == "raise" for e in trace):
             return False, f"mapping fails ({[e.name for e in trace if e.kind == 'raise'][0]}) although the script provides every value"
+        if rv is UNKNOWN:
+            return None, "the value the mapper returns is not followed"
         return (rv == Sym("built")), f"the start symbol Abs is mapped to {rv!r}, expected the production built for it"
     verdict("stack mapper: an abstract symbol is served by a value built for one of its productions", ABS, [INT, BOOL, P, ABS],
             {P: [("f1", INT), ("f2", BOOL)]}, {ABS: [P]}, [INT, BOOL, P, ABS], chk_c)
@@ -242,6 +244,8 @@ def _eager_context(u: ast.AST) -> bool:
         return True
     if isinstance(p, (ast.For, ast.comprehension)) and p.iter is u:
         return True
+    if isinstance(p, ast.YieldFrom):
+        return True        # 'yield from <iterator>' inside a generator function: drained element by element into the function's own stream
     return isinstance(p, ast.Starred)
 
 
@@ -329,10 +333,9 @@ def rule_r2(ctx: Ctx) -> None:
                 ok = True
             elif isinstance(p, (ast.For, ast.comprehension)) and p.iter is g:
                 ok = True
-            elif isinstance(p, ast.Call) and g in p.args and consumer in ("chain", "from_iterable", "islice", "accumulate", "starmap", "zip_longest", "product") \
-                    and _eager_context(p):
+            elif isinstance(p, ast.Call) and g in p.args and consumer in _LAZY_COMBINATORS and _eager_context(p):
                 ok = True      # handed to a lazy combinator whose result is consumed on the spot
-            elif isinstance(p, ast.Starred):
+            elif isinstance(p, (ast.Starred, ast.YieldFrom)):
                 ok = True
             elif isinstance(p, (ast.Assign, ast.AnnAssign, ast.Return, ast.Yield)) or (isinstance(p, ast.Call) and g in p.args) \
                     or isinstance(p, (ast.List, ast.Tuple, ast.Dict, ast.keyword)):
